@@ -110,3 +110,50 @@ package bt
 //@ func bt.(*Tx).OutputIdx
 //@   pure
 //@   ensures[outputidx] (= result (ite (and (<= 0 i) (< i (len (. tx Outputs)))) (at (. tx Outputs) i) nil))
+
+// ---- Clone: a deep, fresh copy (C03/C08) ----
+//@ func bt.cloneScript
+//@   bytes array
+//@   fresh result
+//@   ensures[clonescript] (and (not (nil? result)) (= (len result) (ite (nil? s) 0 (old (len s)))))
+//@ func bt.(*Tx).Clone
+//@   bytes array
+//@   opt frame-all 1
+//@   fresh result
+//@   ensures[clone_nonnil] (not (nil? result))
+//@   ensures[clone_counts] (and (= (len (. result Inputs)) (len (. tx Inputs))) (= (len (. result Outputs)) (len (. tx Outputs))))
+//@   ensures[clone_inputs_fresh] (forall ((k Int)) (=> (and (<= 0 k) (< k (len (. result Inputs)))) (and (not (nil? (at (. result Inputs) k))) (fresh (at (. result Inputs) k)))))
+//@   ensures[clone_outputs_fresh] (forall ((k Int)) (=> (and (<= 0 k) (< k (len (. result Outputs)))) (and (not (nil? (at (. result Outputs) k))) (fresh (at (. result Outputs) k)))))
+//@   ensures[clone_scripts_nonnil] (forall ((k Int)) (=> (and (<= 0 k) (< k (len (. result Outputs)))) (not (nil? (. (at (. result Outputs) k) LockingScript)))))
+//@   requires (forall ((k Int)) (=> (and (<= 0 k) (< k (len (. tx Inputs)))) (not (nil? (at (. tx Inputs) k)))))
+//@   requires (forall ((k Int)) (=> (and (<= 0 k) (< k (len (. tx Outputs)))) (not (nil? (at (. tx Outputs) k)))))
+//@   loop 0 invariant (and (not (nil? clone)) (fresh clone) (= (len (. clone Inputs)) (+ rangeindex 1)) (or (nil? (. clone Inputs)) (fresh (. clone Inputs))))
+//@   loop 0 invariant (forall ((k Int)) (=> (and (<= 0 k) (< k (len (. clone Inputs)))) (and (not (nil? (at (. clone Inputs) k))) (fresh (at (. clone Inputs) k)))))
+//@   loop 0 invariant (forall ((k Int)) (=> (and (<= 0 k) (< k (len (. tx Inputs)))) (not (nil? (at (. tx Inputs) k)))))
+//@   loop 0 invariant (forall ((k Int)) (=> (and (<= 0 k) (< k (len (. tx Outputs)))) (not (nil? (at (. tx Outputs) k)))))
+//@   loop 1 invariant (forall ((k Int)) (=> (and (<= 0 k) (< k (len (. tx Outputs)))) (not (nil? (at (. tx Outputs) k)))))
+//@   loop 1 invariant (and (not (nil? clone)) (fresh clone) (= (len (. clone Inputs)) (len (. tx Inputs))) (= (len (. clone Outputs)) (+ rangeindex 1)) (or (nil? (. clone Outputs)) (fresh (. clone Outputs))) (or (nil? (. clone Inputs)) (fresh (. clone Inputs))))
+//@   loop 1 invariant (forall ((k Int)) (=> (and (<= 0 k) (< k (len (. clone Inputs)))) (and (not (nil? (at (. clone Inputs) k))) (fresh (at (. clone Inputs) k)))))
+//@   loop 1 invariant (forall ((k Int)) (=> (and (<= 0 k) (< k (len (. clone Outputs)))) (and (not (nil? (at (. clone Outputs) k))) (fresh (at (. clone Outputs) k)))))
+//@   loop 1 invariant (forall ((k Int)) (=> (and (<= 0 k) (< k (len (. clone Outputs)))) (not (nil? (. (at (. clone Outputs) k) LockingScript)))))
+
+// ---- legacy signature hash: works on a clone; the caller's transaction is never written (C03/C08) ----
+//@ func bt.(*Tx).CalcInputPreimageLegacy
+//@   opt frame-all 1
+//@   requires (forall ((k Int)) (=> (and (<= 0 k) (< k (len (. tx Inputs)))) (not (nil? (at (. tx Inputs) k)))))
+//@   requires (forall ((k Int)) (=> (and (<= 0 k) (< k (len (. tx Outputs)))) (not (nil? (at (. tx Outputs) k)))))
+//@   requires (< (len (. tx Inputs)) 4294967295)
+//@   loop 0 invariant (spec.clone_ok txCopy)
+//@   loop 0 invariant (forall ((k Int)) (=> (and (<= 0 k) (<= k rangeindex) (< k (len (. txCopy Inputs)))) (not (nil? (. (at (. txCopy Inputs) k) PreviousTxScript)))))
+//@   loop 0 invariant (not (nil? (. (at (. tx Inputs) inputNumber) PreviousTxScript)))
+//@   loop 0 invariant (spec.out_scripts_ok txCopy)
+//@   loop 1 invariant (spec.clone_ok txCopy)
+//@   loop 1 invariant (spec.out_scripts_ok txCopy)
+//@   loop 2 invariant (and (spec.clone_ok txCopy) (<= 0 i))
+//@   loop 2 invariant (spec.out_scripts_ok txCopy)
+//@   loop 3 invariant (spec.clone_ok txCopy)
+//@   loop 3 invariant (spec.out_scripts_ok txCopy)
+//@   loop 4 invariant (spec.clone_ok txCopy)
+//@   loop 4 invariant (spec.out_scripts_ok txCopy)
+//@   loop 5 invariant (spec.clone_ok txCopy)
+//@   loop 5 invariant (spec.out_scripts_ok txCopy)
